@@ -32,6 +32,13 @@ fn plan(sc: Scenario, depth: usize) -> HistPlan
     HistPlan { scenario: sc, clock: ClockModel::Strict, depth, paired: false, c10: false, secs: 40, max_states: 3_000_000, ordered: true }
 }
 
+/// The same scenarios under the coarse clock (one tick per user action or ruler invocation: everything
+/// one build writes shares a modification time).
+fn coarse_plans(tier: &str, secs: u64, list: Vec<(Scenario, usize, usize)>) -> Vec<HistPlan>
+{
+    list.into_iter().map(|(sc, q, t)| { let mut p = plan(sc, tiered(tier, q, t)); p.clock = ClockModel::Coarse; p.secs = secs; p }).collect()
+}
+
 /// Runs the plans for one property, fills the report.
 pub fn run_hist_plans(rep: &mut Report, id: &str, plans: Vec<HistPlan>)
 {
@@ -44,6 +51,7 @@ pub fn run_hist_plans(rep: &mut Report, id: &str, plans: Vec<HistPlan>)
     let mut max_depth = 0;
     let mut obligations = 0u64;
     let mut nontrivial = 0u64;
+    let mut repeat_checked = false;
     for p in plans
     {
         // debugging aids: RVF_ONLY=<substring of a scenario name>, RVF_ORDERED=1 forces order-sensitive keys
@@ -65,6 +73,22 @@ pub fn run_hist_plans(rep: &mut Report, id: &str, plans: Vec<HistPlan>)
             ordered_key: p.ordered,
         };
         let r = hist::run_hist(&cfg);
+        // determinism self-check: the first plan of a property is searched twice (the second time on a
+        // different number of worker threads); states and transitions per level must be identical
+        if !repeat_checked && r.exhaustive_to_depth && r.states < 200_000
+        {
+            repeat_checked = true;
+            let mut cfg2 = HistCfg { scenario: p.scenario.clone(), clock: p.clock, oracles: or.clone(), depth: p.depth, paired: p.paired, use_ghost_in_key: id == "C02",
+                max_states: p.max_states, deadline: Instant::now() + Duration::from_secs(p.secs), threads: (threads() / 2).max(1), c10_probes: false, ordered_key: p.ordered };
+            if p.c10 { cfg2.c10_probes = true; }
+            let r2 = hist::run_hist(&cfg2);
+            let same = r2.exhaustive_to_depth && r2.states == r.states && r2.levels == r.levels && r2.stats.transitions == r.stats.transitions;
+            rep.set("repeat_run_identical", json!({"scenario": p.scenario.name, "states": [r.states, r2.states], "transitions": [r.stats.transitions, r2.stats.transitions], "identical": same}));
+            if !same && r2.exhaustive_to_depth
+            {
+                rep.machinery(format!("the search of {} is not deterministic: {} vs {} states, {} vs {} transitions", p.scenario.name, r.states, r2.states, r.stats.transitions, r2.stats.transitions));
+            }
+        }
         states += r.states;
         transitions += r.stats.transitions;
         impl_runs += r.stats.builds + r.stats.cleans + r.stats.probes;
@@ -205,12 +229,33 @@ pub fn run_sched_plans(rep: &mut Report, id: &str, cases: Vec<SchedCase>, phases
     let mut per = vec![];
     let mut all_complete = true;
     let mut distinct_outcomes_total = 0u64;
+    let mut skipped_cases: Vec<String> = vec![];
     for case in cases
     {
         let prep = match schedeng::prepare(&case)
         {
             Ok(p) => p,
-            Err(e) => { rep.machinery(format!("case {}: pre-history failed: {}", case.name, e)); continue; },
+            Err(e) =>
+            {
+                // ruler panicked or hung while the case's pre-history was run serially: that is C05's
+                // business (and a replayable history); the other properties skip the case and say so
+                if id == "C05"
+                {
+                    rep.violation(Violation
+                    {
+                        property: "C05".into(),
+                        signature: format!("C05:sched:{}:pre-history:{}", case.name, crate::cli::first_line(&e)),
+                        summary: format!("a build or clean of the pre-history [{}] of case {} failed on the serial schedule: {}", hist::ops_short(&case.pre), case.name, e),
+                        replay: json!({"engine": "sched", "case": case.name, "what": "pre-history", "ops": case.pre}),
+                    });
+                }
+                else
+                {
+                    skipped_cases.push(format!("{}: {}", case.name, crate::cli::first_line(&e)));
+                }
+                all_complete = false;
+                continue;
+            },
         };
         let mut per_phase = vec![];
         let mut merged = schedeng::CaseResult::default();
@@ -386,6 +431,7 @@ pub fn run_sched_plans(rep: &mut Report, id: &str, cases: Vec<SchedCase>, phases
     let prev = rep.coverage.get("exhaustive").and_then(|v| v.as_bool()).unwrap_or(true);
     rep.set("exhaustive", json!(prev && all_complete));
     rep.set("per_case", json!(per));
+    if !skipped_cases.is_empty() { rep.set("cases_skipped_because_their_pre_history_failed", json!(skipped_cases)); }
 }
 
 pub fn first_line(s: &str) -> String
@@ -402,6 +448,8 @@ fn check(id: &str, tier: &str) -> i32
 {
     let mut rep = Report::new(id, tier);
     let thorough = tier == "thorough";
+    // a call into ruler that does not return within the limit is reported as a violation (watch.rs)
+    crate::watch::start(id, tier, Duration::from_secs(if thorough { 90 } else { 45 }));
     let secs = if thorough { 240 } else { 25 };
     match id
     {
@@ -416,6 +464,7 @@ fn check(id: &str, tier: &str) -> i32
                 plans.push(p);
             }
             if thorough { let mut p = plan(scen::s1_chain_xyz(), 7); p.secs = secs; plans.push(p); let mut p = plan(scen::s14_five(), 6); p.secs = secs; plans.push(p); } else { let mut p = plan(scen::s14_five(), 4); p.secs = secs; plans.push(p); }
+            plans.extend(coarse_plans(tier, secs, vec![(scen::s1_chain(), 6, 8), (scen::s3_multi(), 5, 7), (scen::s4_twins(), 5, 7), (scen::s19_aside(), 8, 10)]));
             run_hist_plans(&mut rep, id, plans);
         },
         "C02" =>
@@ -429,6 +478,7 @@ fn check(id: &str, tier: &str) -> i32
                 plans.push(p);
             }
             if thorough { let mut p = plan(scen::s1_chain_xyz(), 7); p.secs = secs; plans.push(p); let mut p = plan(scen::s14_five(), 6); p.secs = secs; plans.push(p); } else { let mut p = plan(scen::s14_five(), 4); p.secs = secs; plans.push(p); }
+            plans.extend(coarse_plans(tier, secs, vec![(scen::s1_chain(), 6, 8), (scen::s3_multi(), 5, 7), (scen::s4_twins(), 5, 7), (scen::s19_aside(), 8, 10)]));
             run_hist_plans(&mut rep, id, plans);
         },
         "C07" | "C08" =>
@@ -445,6 +495,7 @@ fn check(id: &str, tier: &str) -> i32
             // coarse clock (files written in one build share a modification time), a command that can fail
             // without touching its outputs, byte-identical twins: partial recovery followed by a failure
             { let mut p = plan(scen::s17b_failing_twins3(), tiered(tier, 12, 13)); p.clock = ClockModel::Coarse; p.ordered = false; p.secs = secs; plans.push(p); }
+            plans.extend(coarse_plans(tier, secs, vec![(scen::s1_chain(), 6, 8), (scen::s3_multi(), 5, 7), (scen::s4_twins(), 5, 7), (scen::s6_exec(), 5, 7)]));
             run_hist_plans(&mut rep, id, plans);
             // all explored schedules (end states of C03-C06) and all crash points of C11
             let cases: Vec<SchedCase> = schedeng::success_cases(tier).into_iter().filter(|c| !c.name.starts_with("chain3")).collect();
@@ -455,7 +506,7 @@ fn check(id: &str, tier: &str) -> i32
         {
             rep.assume("scope (goal's rule and its ancestors) is computed from the scenario structure, not from ruler's sorter; commands are exempt");
             let mut plans = vec![];
-            for (sc, q, t) in vec![(scen::s9_scope(), 5, 8), (scen::s3_multi(), 5, 8), (scen::s8_failures(), 5, 8), (scen::s15_repeated(), 4, 6)]
+            for (sc, q, t) in vec![(scen::s9_scope(), 6, 8), (scen::s3_multi(), 6, 8), (scen::s8_failures(), 6, 8), (scen::s15_repeated(), 5, 6)]
             {
                 let mut p = plan(sc, tiered(tier, q, t));
                 p.secs = secs;
@@ -484,14 +535,14 @@ fn check(id: &str, tier: &str) -> i32
             let mut plans = vec![];
             for m in 0..4
             {
-                let mut p = plan(scen::s7_undeclared(m), tiered(tier, 6, 8));
+                let mut p = plan(scen::s7_undeclared(m), tiered(tier, 7, 8));
                 p.secs = secs;
                 plans.push(p);
             }
-            { let mut p = plan(scen::s7_preserving(), tiered(tier, 6, 8)); p.secs = secs; plans.push(p); }
+            { let mut p = plan(scen::s7_preserving(), tiered(tier, 7, 8)); p.secs = secs; plans.push(p); }
             for m in (if thorough { vec![0u8, 1, 2, 3, 4, 5, 6, 7] } else { vec![3u8, 5, 6, 7] })
             {
-                let mut p = plan(scen::s7_undeclared3(m), tiered(tier, 5, 7));
+                let mut p = plan(scen::s7_undeclared3(m), tiered(tier, 6, 7));
                 p.secs = secs;
                 plans.push(p);
             }
@@ -527,6 +578,7 @@ fn check(id: &str, tier: &str) -> i32
                 p.secs = secs;
                 plans.push(p);
             }
+            plans.extend(coarse_plans(tier, secs, vec![(scen::s3_multi(), 5, 7), (scen::s4_twins(), 5, 7)]));
             run_hist_plans(&mut rep, id, plans);
             let mut cases: Vec<SchedCase> = schedeng::success_cases(tier);
             cases.extend(schedeng::failure_cases(tier));
@@ -613,13 +665,36 @@ fn check(id: &str, tier: &str) -> i32
     rep.finish()
 }
 
+/// Replays one recorded item; a replay that does not come back within the limit is itself the
+/// verdict "does not return" (the stuck helper thread is abandoned when the process exits).
 fn replay(path: &str) -> i32
+{
+    let p = path.to_string();
+    match crate::watch::with_limit(Duration::from_secs(180), move || replay_inner(&p))
+    {
+        Some(rc) => rc,
+        None =>
+        {
+            let v = report::read_replay(path);
+            println!("the replay did not return within 180 s: a call into ruler does not terminate");
+            println!("VIOLATION property={} replay={}", v["property"].as_str().unwrap_or("?"), path);
+            1
+        },
+    }
+}
+
+fn replay_inner(path: &str) -> i32
 {
     let v = report::read_replay(path);
     let prop = v["property"].as_str().unwrap_or("").to_string();
     let r = &v["replay"];
     match r["engine"].as_str().unwrap_or("")
     {
+        "unreplayable" =>
+        {
+            println!("no stand-alone replay exists for this item; what was observed: {}", v["summary"].as_str().unwrap_or(""));
+            2
+        },
         "hist" =>
         {
             let sc = match scen::by_name(r["scenario"].as_str().unwrap_or(""))
@@ -675,8 +750,23 @@ fn replay(path: &str) -> i32
             let prep = match schedeng::prepare(&case)
             {
                 Ok(p) => p,
-                Err(e) => { eprintln!("pre-history failed: {}", e); return 2; },
+                Err(e) =>
+                {
+                    if r["what"].as_str() == Some("pre-history")
+                    {
+                        println!("pre-history [{}] of case {} failed on the serial schedule: {}", hist::ops_short(&case.pre), case.name, e);
+                        println!("VIOLATION property={} replay={}", prop, path);
+                        return 1;
+                    }
+                    eprintln!("pre-history failed: {}", e);
+                    return 2;
+                },
             };
+            if r["what"].as_str() == Some("pre-history")
+            {
+                println!("pre-history of case {} ran without failure", case.name);
+                return 0;
+            }
             let choices: Vec<u8> = serde_json::from_value(r["choices"].clone()).unwrap_or_default();
             let c03 = r["c03"].as_bool().unwrap_or(false);
             let mut or = Oracles::only(&prop);
